@@ -279,6 +279,73 @@ pub fn loopback_multicast_works() -> bool {
     }
 }
 
+/// The same probe for IPv6 (ff02::fb, default multicast interface).
+pub fn loopback_multicast6_works() -> bool {
+    unsafe {
+        let rx = libc::socket(libc::AF_INET6, libc::SOCK_DGRAM, 0);
+        if rx < 0 {
+            return false;
+        }
+        let one: libc::c_int = 1;
+        let sz = std::mem::size_of::<libc::c_int>() as libc::socklen_t;
+        libc::setsockopt(rx, libc::SOL_SOCKET, libc::SO_REUSEADDR, &one as *const _ as *const libc::c_void, sz);
+        libc::setsockopt(rx, libc::SOL_SOCKET, libc::SO_REUSEPORT, &one as *const _ as *const libc::c_void, sz);
+        libc::setsockopt(rx, libc::IPPROTO_IPV6, libc::IPV6_V6ONLY, &one as *const _ as *const libc::c_void, sz);
+        let mut addr: libc::sockaddr_in6 = std::mem::zeroed();
+        addr.sin6_family = libc::AF_INET6 as libc::sa_family_t;
+        addr.sin6_port = 5353u16.to_be();
+        if libc::bind(rx, &addr as *const _ as *const libc::sockaddr, std::mem::size_of::<libc::sockaddr_in6>() as libc::socklen_t) != 0 {
+            libc::close(rx);
+            return false;
+        }
+        let group = std::net::Ipv6Addr::new(0xff02, 0, 0, 0, 0, 0, 0, 0xfb);
+        let mreq = libc::ipv6_mreq { ipv6mr_multiaddr: libc::in6_addr { s6_addr: group.octets() }, ipv6mr_interface: 0 };
+        if libc::setsockopt(rx, libc::IPPROTO_IPV6, libc::IPV6_ADD_MEMBERSHIP, &mreq as *const _ as *const libc::c_void, std::mem::size_of::<libc::ipv6_mreq>() as libc::socklen_t) != 0 {
+            libc::close(rx);
+            return false;
+        }
+        let tv = libc::timeval { tv_sec: 0, tv_usec: 100_000 };
+        libc::setsockopt(rx, libc::SOL_SOCKET, libc::SO_RCVTIMEO, &tv as *const _ as *const libc::c_void, std::mem::size_of::<libc::timeval>() as libc::socklen_t);
+        let tx = match std::net::UdpSocket::bind((std::net::Ipv6Addr::UNSPECIFIED, 0)) {
+            Ok(s) => s,
+            Err(_) => {
+                libc::close(rx);
+                return false;
+            }
+        };
+        let _ = tx.set_multicast_loop_v6(true);
+        let token = *b"verif-probe-6";
+        let mut ok = false;
+        for _ in 0..10 {
+            let _ = tx.send_to(&token, (group, 5353));
+            let mut buf = [0u8; 64];
+            for _ in 0..5 {
+                let n = libc::recv(rx, buf.as_mut_ptr() as *mut libc::c_void, buf.len(), 0);
+                if n == token.len() as isize && buf[..token.len()] == token {
+                    ok = true;
+                    break;
+                }
+            }
+            if ok {
+                break;
+            }
+        }
+        libc::close(rx);
+        ok
+    }
+}
+
+/// The IPv4 address of the interface that multicast datagrams leave through (for
+/// NetworkScope::V4WithInterface), learned from the routing decision of a connected socket.
+pub fn multicast_interface_v4() -> Option<std::net::Ipv4Addr> {
+    let s = std::net::UdpSocket::bind((std::net::Ipv4Addr::UNSPECIFIED, 0)).ok()?;
+    s.connect((std::net::Ipv4Addr::new(224, 0, 0, 251), 5353)).ok()?;
+    match s.local_addr().ok()? {
+        std::net::SocketAddr::V4(a) if !a.ip().is_unspecified() => Some(*a.ip()),
+        _ => None,
+    }
+}
+
 /// Run one recorded case in a child process (`mc --replay <file>`): Ok(signatures) on exit 0/1,
 /// Err(description) when the child died on a signal or failed otherwise.
 pub fn run_isolated(verif_root: &str, prop: &str, tag: &str, case: &serde_json::Value) -> Result<Vec<(String, String)>, String> {
